@@ -8,6 +8,7 @@ import (
 	"math/rand"
 	"sort"
 	"strings"
+	"sync"
 	"time"
 
 	"github.com/thushan/olla/verifharness/backend"
@@ -201,15 +202,46 @@ func throughStack(run *rep.Run, rng *rand.Rand) {
 				run.Violation("C10/stack/model-to-endpoints/"+cls, fmt.Sprintf("model %q resolves to %d endpoints, %d endpoints' latest filtered listing contain it", n, len(got), len(want)), wit())
 			}
 		}
-		// HTTP views
-		if resp, err := hc.Get(w.Base + "/internal/status/models"); err == nil {
-			bts, _ := io.ReadAll(resp.Body)
-			resp.Body.Close()
-			var st map[string]any
-			if json.Unmarshal(bts, &st) == nil {
-				if tm, ok := findNumber(st, "total_models"); ok && int(tm) != len(all) {
-					run.Violation("C10/stack/status-models/total", fmt.Sprintf("/internal/status/models reports total_models=%d, reference has %d distinct models", int(tm), len(all)), wit())
-				}
+		// HTTP views; the status view is polled by several readers at once (dashboards do), the
+		// registry is quiescent here, so every one of them has to see the same, right, total
+		{
+			var wg sync.WaitGroup
+			var mu sync.Mutex
+			var wrong []int
+			okReads := 0
+			for p := 0; p < 6; p++ {
+				wg.Add(1)
+				go func() {
+					defer wg.Done()
+					phc := world.NewClient(true, 10*time.Second)
+					for k := 0; k < 4; k++ {
+						resp, err := phc.Get(w.Base + "/internal/status/models")
+						if err != nil {
+							continue
+						}
+						bts, _ := io.ReadAll(resp.Body)
+						resp.Body.Close()
+						var st map[string]any
+						if json.Unmarshal(bts, &st) != nil {
+							continue
+						}
+						tm, ok := findNumber(st, "total_models")
+						mu.Lock()
+						if ok {
+							okReads++
+							if int(tm) != len(all) {
+								wrong = append(wrong, int(tm))
+							}
+						}
+						mu.Unlock()
+					}
+				}()
+			}
+			wg.Wait()
+			if len(wrong) > 0 {
+				run.Violation("C10/stack/status-models/total", fmt.Sprintf("/internal/status/models reports total_models=%v to %d of %d concurrent readers, reference has %d distinct models", wrong, len(wrong), okReads, len(all)), wit())
+			}
+			if okReads > 0 {
 				run.Count("stack_http_views_compared", 1)
 			}
 		}
